@@ -120,14 +120,15 @@ def r_cert(A, ctx, scope, rule="R-CERT", clauses=("max", "all", "intercept")):
                 raise AnalysisError(f"{f.fq}: cannot read tolerance test {norm_src(cmp)}")
             # (0) tolerance unscaled and comparison direction
             n += 1
-            tol_side = [c for c in [cmp.left] + cmp.comparators
-                        if "TOL" in flow.roles(f, c)]
-            unscaled = all(isinstance(c, ast.Attribute) for c in tol_side)
+            tol_side = [c for c in [cmp.left] + cmp.comparators if sf.tol_kind(c)]
+            unscaled = all(sf.tol_kind(c) == "direct" for c in tol_side)
             op_ok = isinstance(cmp.ops[0], (ast.LtE, ast.Lt)) and isinstance(cmp.left, ast.Name) \
                 or isinstance(cmp.ops[0], (ast.GtE, ast.Gt)) and not isinstance(cmp.left, ast.Name)
             ctx.ob(rule, f"{f.fq}::exit::{norm_src(cmp)}", unscaled and op_ok,
-                   what="outer tolerance exit is not `stop <= self.tol` with the "
-                        "solver's own unscaled tolerance", loc=loc(f, cmp))
+                   what=f"outer tolerance exit `{norm_src(cmp)}` is not `stop <= self.tol` with the "
+                        "solver's own unscaled tolerance: a tolerance rescaled by solver state (the "
+                        "violation at the start point, an objective value) makes the certificate depend "
+                        "on where the run started", loc=loc(f, cmp))
             chain = _stop_chain(sf, test_id, stop)
             slice_nodes = cfg.backward_slice(test_id, [stop])
             # (1) max reduction
@@ -405,7 +406,8 @@ def r_retstop(A, ctx, scope, rule="R-RETSTOP"):
             for nd in cfg.stmts():
                 a = nd.ast
                 if nd.kind == "stmt" and isinstance(a, ast.Assign) and any(
-                        isinstance(t, ast.Name) and t.id == sf.STOP for t in a.targets) and nd.loops:
+                        isinstance(e, ast.Name) and e.id == sf.STOP
+                        for t in a.targets for e in (t.elts if isinstance(t, ast.Tuple) else [t])) and nd.loops:
                     n += 1
                     ctx.ob(rule, f"{sf.f.fq}::def::{norm_src(a)[:60]}", nd.id in seen_by_test,
                            what=f"`{norm_src(a)[:60]}` sets the returned stopping value on a path that "
